@@ -35,7 +35,7 @@ PRE_CALL = ['inline()', 'inline(recursive=False)', 'lift_context()', 'close()', 
 def recipes_for_factory(tier):
     core, ext = all_recipes()
     def recipes_for(prog, R):
-        if tier == 'quick': return core + R.sample(ext, 10)
+        if tier == 'quick': return ['simplify()'] + R.sample(core[1:], 2) + R.sample(ext, 4)
         return core + ext
     return recipes_for
 
@@ -44,7 +44,7 @@ def classify(d, fn, xf):
 
 def build_programs(seed, tier):
     R = Prng(seed, 'C07:progs')
-    n_main, n_loop, n_call = (600, 220, 130) if tier == 'quick' else (520, 180, 100)
+    n_main, n_loop, n_call = (230, 70, 40) if tier == 'quick' else (900, 300, 180)
     sc = float(os.environ.get('VERIF_XGEN_SCALE', '1'))   # debugging aid: shrink the run
     n_main, n_loop, n_call = int(n_main * sc), int(n_loop * sc), int(n_call * sc)
     progs = corpus_progs('c07_corpus.py', R, ctxs=(None, 'fp.IEEEContext(5, 16, fp.RM.RTZ)'))
@@ -63,7 +63,7 @@ def build_programs(seed, tier):
 
 def run(rep, tier, seed):
     progs, stats = build_programs(seed, tier)
-    opts = {'inputs_cap': 7 if tier == 'quick' else None, 'ctx_every': 3 if tier == 'quick' else 2, 'max_traces': 6 if tier == 'quick' else 12, 'deadline_s': 900 if tier == 'quick' else 3600,
+    opts = {'inputs_cap': 5 if tier == 'quick' else None, 'ctx_every': 3 if tier == 'quick' else 2, 'max_traces': 3 if tier == 'quick' else 12, 'deadline_s': 900 if tier == 'quick' else 3600,
             'prog_budget': 60 if tier == 'quick' else 240}
     run_xforms(rep, tier, seed, PROP, progs, recipes_for_factory(tier), classify=classify, opts=opts)
     summarize_cov(rep, stats)
